@@ -480,12 +480,6 @@ pub(crate) fn current_cancel_data() -> &'static Cancel {
     }
 }
 
-#[inline]
-pub(crate) fn co_cancel_data(co: &CoroutineImpl) -> &'static Cancel {
-    let local = unsafe { &*get_co_local(co) };
-    &local.get_co().inner.cancel
-}
-
 // windows use delay drop instead
 #[cfg(unix)]
 #[cfg(feature = "io_cancel")]
